@@ -34,10 +34,10 @@ PROP_MODULES = {
     "C17": ["c17"],
     "C13": ["c13", "c11"],
     "C06": ["c06"],
-    "C05": ["c05"],
+    "C05": ["c05", "c03"],
     "C09": ["c03", "c09"],
     "C02": ["c01", "c03", "c05", "c02"],
-    "C19": ["c19"],
+    "C19": ["c19", "c09"],
     "C18": ["c18", "c07", "c06", "c17", "c13"],
 }
 
